@@ -61,48 +61,48 @@ fn handle_pushdata(cmd: &Command, is_pushdata: usize) -> usize {
     }
 }
 
-fn decode_op(op: &str, is_pushdata: usize) -> Command {
+fn decode_op(op: &str, is_pushdata: usize) -> Result<Command, ChainGangError> {
     let op = op.trim();
     // println!("decode_op({:?})", &op);
     // Command
     if let Some(val) = OP_CODE_NAMES.get(op) {
-        return Command::Int(*val);
+        return Ok(Command::Int(*val));
     }
     // Is an int
     if let Ok(val) = op.parse::<i64>() {
         match val {
-            -1 => return Command::Int(op_codes::OP_1NEGATE),
-            0 => return Command::Int(op_codes::OP_0),
-            1..=16 => return Command::Int((val + 0x50).try_into().unwrap()), // 1 => OP_1, => 0x81
+            -1 => return Ok(Command::Int(op_codes::OP_1NEGATE)),
+            0 => return Ok(Command::Int(op_codes::OP_0)),
+            1..=16 => return Ok(Command::Int((val + 0x50) as u8)), // 1 => OP_1, => 0x51
             17..=75 => {
                 if is_pushdata > 0 {
-                    return Command::Int(val.try_into().unwrap());
+                    return Ok(Command::Int(val as u8));
                 } else {
-                    let retval: Vec<u8> = vec![1, val.try_into().unwrap()];
-                    return Command::Bytes(retval);
+                    let retval: Vec<u8> = vec![1, val as u8];
+                    return Ok(Command::Bytes(retval));
                 }
             }
             _ => {
                 if is_pushdata > 0 {
-                    let retval = encode_num(val).unwrap();
-                    return Command::Bytes(retval);
+                    let retval = encode_num(val)?;
+                    return Ok(Command::Bytes(retval));
                 } else {
-                    let mut retval = encode_num(val).unwrap();
-                    let len: u8 = retval.len().try_into().unwrap();
+                    let mut retval = encode_num(val)?;
+                    let len = retval.len() as u8; // encode_num returns at most 4 bytes
                     retval.insert(0, len);
-                    return Command::Bytes(retval);
+                    return Ok(Command::Bytes(retval));
                 }
             }
         }
     }
     // Hex digit, digits
-    if op[..2] == *"0x" {
+    if let Some(digits) = op.strip_prefix("0x") {
         if is_pushdata > 0 {
-            let retval: Vec<u8> = hex::decode(&op[2..]).unwrap();
-            return Command::Bytes(retval);
+            let retval: Vec<u8> = hex::decode(digits)?;
+            return Ok(Command::Bytes(retval));
         } else {
-            let len = op[2..].len() / 2;
-            let data: Vec<u8> = hex::decode(&op[2..]).unwrap();
+            let len = digits.len() / 2;
+            let data: Vec<u8> = hex::decode(digits)?;
             let mut retval: Vec<u8> = Vec::new();
             match len {
                 0 => {
@@ -132,17 +132,14 @@ fn decode_op(op: &str, is_pushdata: usize) -> Command {
                     retval.extend(data);
                 }
             }
-            return Command::Bytes(retval);
+            return Ok(Command::Bytes(retval));
         }
     }
-    // Byte array
-    if op[..1] == *"b" {
-        let bytes: Vec<u8> = op[2..op.len() - 1].chars().map(|c| c as u8).collect();
-        Command::Bytes(bytes)
-    } else {
-        // String
-        let bytes: Vec<u8> = op[1..op.len() - 1].chars().map(|c| c as u8).collect();
-        Command::Bytes(bytes)
+    // Byte array b'..' or quoted string '..': the text between the delimiters
+    let start = if op.starts_with('b') { 2 } else { 1 };
+    match op.len().checked_sub(1).and_then(|end| op.get(start..end)) {
+        Some(text) => Ok(Command::Bytes(text.chars().map(|c| c as u8).collect())),
+        None => Err(ChainGangError::BadData(format!("Unable to decode script token {:?}", op))),
     }
 }
 
@@ -406,7 +403,7 @@ impl PyScript {
         let mut decoded: Vec<Command> = Vec::new();
         let mut is_pushdata: usize = 0;
         for s in splits {
-            let op = decode_op(s, is_pushdata);
+            let op = decode_op(s, is_pushdata)?;
             is_pushdata = handle_pushdata(&op, is_pushdata);
             decoded.push(op);
         }
